@@ -284,6 +284,44 @@ end IsoMdl.Schema
 namespace IsoMdl.Schema
 open IsoMdl IsoMdl.Cbor
 
+mutual
+/-- only null is emitted as null -/
+theorem norm_null : ∀ (s : Sch) (c : Cbor), norm s c = some (.simple 22) → c = .simple 22
+  | .any, c, h => by simpa [norm] using h
+  | .uint, c, h => by cases c <;> simp [norm] at h
+  | .int, c, h => by cases c <;> simp [norm] at h
+  | .text, c, h => by cases c <;> simp [norm] at h
+  | .bytes, c, h => by cases c <;> simp [norm] at h
+  | .bool, c, h => by unfold norm at h; split at h <;> simp at h
+  | .null, c, h => by unfold norm at h; split at h <;> simp_all
+  | .lit l, c, h => by unfold norm at h; split at h <;> simp_all
+  | .tagged t s, c, h => by unfold norm at h; cases c <;> simp at h
+  | .embedded s, c, h => by
+    unfold norm at h
+    split at h
+    · rename_i b; cases hd : decodeAll b <;> simp [hd] at h
+    · cases h
+  | .arr s ne, c, h => by unfold norm at h; cases c <;> simp at h
+  | .tuple ss, c, h => by unfold norm at h; cases c <;> simp at h
+  | .struct fs, c, h => by unfold norm at h; cases c <;> simp at h
+  | .dict kk vs ne, c, h => by
+    unfold norm at h
+    cases c <;> simp only [reduceCtorEq] at h <;> try (cases h)
+    split at h
+    · cases h
+    · split at h
+      · cases h
+      · obtain ⟨es, _, hes⟩ := Option.map_eq_some_iff.mp h; cases hes
+  | .oneOf ss, c, h => by unfold norm at h; exact normFirst_null ss c h
+theorem normFirst_null : ∀ (ss : SchList) (c : Cbor), normFirst ss c = some (.simple 22) → c = .simple 22
+  | .nil, c, h => by simp [normFirst] at h
+  | .cons s rest, c, h => by
+    unfold normFirst at h
+    cases hn : norm s c with
+    | some w => simp [hn] at h; subst h; exact norm_null s c hn
+    | none => simp only [hn] at h; exact normFirst_null rest c h
+end
+
 /-- keys emitted by `normFields` are field keys of the schema -/
 theorem normFields_keys : ∀ (fs : Fields) (kvs out : List (Cbor × Cbor)), normFields fs kvs = some out →
     ∀ e ∈ out, e.1 ∈ fs.keys
@@ -299,16 +337,18 @@ theorem normFields_keys : ∀ (fs : Fields) (kvs out : List (Cbor × Cbor)), nor
       · cases h
     | some v =>
       simp only [hl] at h
-      cases hn : norm s v with
-      | none => simp [hn] at h
-      | some v' =>
-        cases hr : normFields rest kvs with
-        | none => simp [hn, hr] at h
-        | some out' =>
-          simp [hn, hr] at h; subst h
-          rcases List.mem_cons.mp he with rfl | he'
-          · exact List.mem_cons_self
-          · exact List.mem_cons_of_mem _ (normFields_keys rest kvs out' hr e he')
+      split at h
+      · exact List.mem_cons_of_mem _ (normFields_keys rest kvs out h e he)
+      · cases hn : norm s v with
+        | none => simp [hn] at h
+        | some v' =>
+          cases hr : normFields rest kvs with
+          | none => simp [hn, hr] at h
+          | some out' =>
+            simp [hn, hr] at h; subst h
+            rcases List.mem_cons.mp he with rfl | he'
+            · exact List.mem_cons_self
+            · exact List.mem_cons_of_mem _ (normFields_keys rest kvs out' hr e he')
 
 theorem lookup_cons_ne (k k' v : Cbor) (l : List (Cbor × Cbor)) (h : k' ≠ k) : lookup k ((k', v) :: l) = lookup k l := by
   have : beq k k' = false := by
@@ -552,14 +592,28 @@ theorem normFields_conf : ∀ (fs : Fields) (kvs out : List (Cbor × Cbor)), wfs
       · cases h
     | some v =>
       simp only [hl] at h
-      cases hn : norm s v with
-      | none => simp [hn] at h
-      | some v' =>
-        cases hr' : normFields rest kvs with
-        | none => simp [hn, hr'] at h
-        | some out' =>
-          simp [hn, hr'] at h; subst h
-          simp [confFields, norm_conf s v v' hs hn, normFields_conf rest kvs out' hr hr']
+      split at h
+      · rename_i hcond
+        have hopt : optional = true := by simp only [Bool.and_eq_true] at hcond; exact hcond.1
+        have ih := normFields_conf rest kvs out hr h
+        have hkeys := normFields_keys rest kvs out h
+        cases out with
+        | nil => simp [confFields, hopt, ih]
+        | cons e more =>
+          obtain ⟨k', v0⟩ := e
+          have hne : (k' == k) = false := by
+            apply beq_eq_false_iff_ne.mpr
+            intro heq; subst heq
+            exact hknot (hkeys (k', v0) List.mem_cons_self)
+          simp [confFields, hne, hopt, ih]
+      · cases hn : norm s v with
+        | none => simp [hn] at h
+        | some v' =>
+          cases hr' : normFields rest kvs with
+          | none => simp [hn, hr'] at h
+          | some out' =>
+            simp [hn, hr'] at h; subst h
+            simp [confFields, norm_conf s v v' hs hn, normFields_conf rest kvs out' hr hr']
 theorem normFirst_conf : ∀ (ss : SchList) (c c' : Cbor), wfsList ss = true → normFirst ss c = some c' → confAny ss c' = true
   | .nil, c, c', _, h => by simp [normFirst] at h
   | .cons s rest, c, c', hw, h => by
@@ -572,25 +626,6 @@ end
 end IsoMdl.Schema
 namespace IsoMdl.Schema
 open IsoMdl IsoMdl.Cbor
-
-mutual
-/-- no untagged alternative anywhere below -/
-def flat : Sch → Bool
-  | .tagged _ s => flat s
-  | .embedded s => flat s
-  | .arr s _ => flat s
-  | .tuple ss => flatList ss
-  | .struct fs => flatFields fs
-  | .dict _ v _ => flat v
-  | .oneOf _ => false
-  | _ => true
-def flatList : SchList → Bool
-  | .nil => true
-  | .cons s rest => flat s && flatList rest
-def flatFields : Fields → Bool
-  | .nil => true
-  | .cons _ s _ rest => flat s && flatFields rest
-end
 
 theorem noDupKeys_of_nodup : ∀ (l : List (Cbor × Cbor)), (l.map (·.1)).Nodup → noDupKeys l = true
   | [], _ => rfl
@@ -619,21 +654,89 @@ theorem normFields_nodup : ∀ (fs : Fields) (kvs out : List (Cbor × Cbor)), wf
       · cases h
     | some v =>
       simp only [hl] at h
-      cases hn : norm s v with
-      | none => simp [hn] at h
-      | some v' =>
-        cases hr' : normFields rest kvs with
-        | none => simp [hn, hr'] at h
-        | some out' =>
-          simp [hn, hr'] at h; subst h
-          simp only [List.map_cons, List.nodup_cons]
-          refine ⟨?_, normFields_nodup rest kvs out' hr hr'⟩
-          intro hmem
-          obtain ⟨e, he, hek⟩ := List.mem_map.mp hmem
-          exact hknot (hek ▸ normFields_keys rest kvs out' hr' e he)
+      split at h
+      · exact normFields_nodup rest kvs out hr h
+      · cases hn : norm s v with
+        | none => simp [hn] at h
+        | some v' =>
+          cases hr' : normFields rest kvs with
+          | none => simp [hn, hr'] at h
+          | some out' =>
+            simp [hn, hr'] at h; subst h
+            simp only [List.map_cons, List.nodup_cons]
+            refine ⟨?_, normFields_nodup rest kvs out' hr hr'⟩
+            intro hmem
+            obtain ⟨e, he, hek⟩ := List.mem_map.mp hmem
+            exact hknot (hek ▸ normFields_keys rest kvs out' hr' e he)
 
 theorem lookup_cons_self (k v : Cbor) (l : List (Cbor × Cbor)) : lookup k ((k, v) :: l) = some v := by
   simp [lookup, (beq_iff k k).mpr rfl]
+
+theorem norm_head (s : Sch) (c c' : Cbor) (hs : Head.other ∉ headsOf s) (h : norm s c = some c') : headOfCbor c' ∈ headsOf s := by
+  cases s <;> simp [headsOf] at hs ⊢
+  · cases c <;> simp [norm] at h; subst h; simp [headOfCbor]
+  · cases c <;> simp [norm] at h <;> (subst h; simp [headOfCbor])
+  · cases c <;> simp [norm] at h; subst h; simp [headOfCbor]
+  · cases c <;> simp [norm] at h; subst h; simp [headOfCbor]
+  · unfold norm at h; split at h <;> first | (injection h with h; subst h; simp [headOfCbor]) | cases h
+  · unfold norm at h; split at h <;> first | (injection h with h; subst h; simp [headOfCbor]) | cases h
+  · unfold norm at h; cases c <;> simp at h; obtain ⟨_, v', _, rfl⟩ := h; simp [headOfCbor]
+  · unfold norm at h
+    split at h
+    · rename_i b
+      cases hd : decodeAll b with
+      | none => simp [hd] at h
+      | some v => simp [hd] at h; obtain ⟨_, rfl⟩ := h; simp [headOfCbor]
+    · cases h
+  · unfold norm at h; cases c <;> simp at h; obtain ⟨_, ys, _, rfl⟩ := h; simp [headOfCbor]
+  · unfold norm at h; cases c <;> simp at h; obtain ⟨ys, _, rfl⟩ := h; simp [headOfCbor]
+  · unfold norm at h; cases c <;> simp at h; obtain ⟨_, out, _, rfl⟩ := h; simp [headOfCbor]
+  · unfold norm at h
+    cases c <;> simp only [reduceCtorEq] at h <;> try (cases h)
+    split at h
+    · cases h
+    · split at h
+      · cases h
+      · obtain ⟨es, _, rfl⟩ := Option.map_eq_some_iff.mp h
+        simp [headOfCbor]
+
+theorem norm_none_of_head (s : Sch) (c : Cbor) (hs : Head.other ∉ headsOf s) (h : headOfCbor c ∉ headsOf s) : norm s c = none := by
+  cases s <;> simp [headsOf] at hs h
+  · cases c <;> simp_all [norm, headOfCbor]
+  · cases c <;> simp_all [norm, headOfCbor]
+  · cases c <;> simp_all [norm, headOfCbor]
+  · cases c <;> simp_all [norm, headOfCbor]
+  · unfold norm; split <;> simp_all [headOfCbor]
+  · unfold norm; split <;> simp_all [headOfCbor]
+  · rename_i t s'
+    cases c <;> simp [norm]
+    rename_i t' v
+    intro ht; subst ht; simp [headOfCbor] at h
+  · unfold norm; split
+    · simp [headOfCbor] at h
+    · rfl
+  · cases c <;> simp_all [norm, headOfCbor]
+  · cases c <;> simp_all [norm, headOfCbor]
+  · cases c <;> simp_all [norm, headOfCbor]
+  · cases c <;> simp_all [norm, headOfCbor]
+
+
+/-- which alternative produced the result: its head class contains the result's head -/
+theorem normFirst_head : ∀ (ss : SchList) (c c' : Cbor), altsOk ss.toList = true → normFirst ss c = some c' →
+    ∃ r ∈ ss.toList, headOfCbor c' ∈ headsOf r
+  | .nil, c, c', _, h => by simp [normFirst] at h
+  | .cons s rest, c, c', ha, h => by
+    simp only [SchList.toList, altsOk, Bool.and_eq_true, Bool.not_eq_true', List.all_eq_true] at ha
+    unfold normFirst at h
+    cases hn : norm s c with
+    | some w =>
+      simp [hn] at h; subst h
+      refine ⟨s, by simp [SchList.toList], norm_head s c w ?_ hn⟩
+      intro hmem; have := ha.1.1; simp [hmem] at this
+    | none =>
+      simp only [hn] at h
+      obtain ⟨r, hr, hh⟩ := normFirst_head rest c c' ha.2 h
+      exact ⟨r, by simp [SchList.toList, hr], hh⟩
 
 theorem mapM_id_of_forall {α} (f : α → Option α) : ∀ (l : List α), (∀ x ∈ l, f x = some x) → l.mapM f = some l
   | [], _ => rfl
@@ -642,8 +745,8 @@ theorem mapM_id_of_forall {α} (f : α → Option α) : ∀ (l : List α), (∀ 
 
 mutual
 /-- FIXED POINT: re-encoding what was decoded reproduces it — decoding the emitted item and
-emitting again gives the same item (schemas without untagged alternatives) -/
-theorem norm_idem : ∀ (s : Sch) (c c' : Cbor), wfs s = true → flat s = true → norm s c = some c' → norm s c' = some c'
+emitting again gives the same item (untagged alternatives must be decided by the outermost kind) -/
+theorem norm_idem : ∀ (s : Sch) (c c' : Cbor), wfs s = true → unions s = true → norm s c = some c' → norm s c' = some c'
   | .any, c, c', _, _, h => by simp [norm] at h ⊢
   | .uint, c, c', _, _, h => by cases c <;> simp [norm] at h; subst h; simp [norm]
   | .int, c, c', _, _, h => by cases c <;> simp [norm] at h <;> (subst h; simp [norm])
@@ -665,7 +768,7 @@ theorem norm_idem : ∀ (s : Sch) (c c' : Cbor), wfs s = true → flat s = true 
     cases c <;> simp at h
     rename_i t' v
     obtain ⟨ht, v', hv, rfl⟩ := h
-    simp only [wfs] at hw; simp only [flat] at hf
+    simp only [wfs] at hw; simp only [unions] at hf
     simp [norm, norm_idem s v v' hw hf hv]
   | .embedded s, c, c', hw, hf, h => by
     unfold norm at h
@@ -684,7 +787,7 @@ theorem norm_idem : ∀ (s : Sch) (c c' : Cbor), wfs s = true → flat s = true 
     cases c <;> simp at h
     rename_i xs
     obtain ⟨hne, ys, hys, rfl⟩ := h
-    simp only [wfs] at hw; simp only [flat] at hf
+    simp only [wfs] at hw; simp only [unions] at hf
     have hfix := mapM_fixed (norm s) (fun x y hxy => norm_idem s x y hw hf hxy) xs ys hys
     have hlen := mapM_length (norm s) xs ys hys
     unfold norm
@@ -704,14 +807,14 @@ theorem norm_idem : ∀ (s : Sch) (c c' : Cbor), wfs s = true → flat s = true 
     cases c <;> simp at h
     rename_i xs
     obtain ⟨ys, hys, rfl⟩ := h
-    simp only [wfs] at hw; simp only [flat] at hf
+    simp only [wfs] at hw; simp only [unions] at hf
     simp [norm, normTuple_idem ss xs ys hw hf hys]
   | .struct fs, c, c', hw, hf, h => by
     unfold norm at h
     cases c <;> simp at h
     rename_i kvs
     obtain ⟨_, out, hout, rfl⟩ := h
-    simp only [wfs] at hw; simp only [flat] at hf
+    simp only [wfs] at hw; simp only [unions] at hf
     have hnd := normFields_nodup fs kvs out hw hout
     have hnd' : ∀ p : Cbor × Cbor → Bool, noDupKeys (out.filter p) = true := by
       intro p
@@ -722,7 +825,7 @@ theorem norm_idem : ∀ (s : Sch) (c c' : Cbor), wfs s = true → flat s = true 
     unfold norm at h
     cases c <;> simp only [reduceCtorEq] at h <;> try (cases h)
     rename_i kvs
-    simp only [wfs] at hw; simp only [flat] at hf
+    simp only [wfs] at hw; simp only [unions] at hf
     split at h
     · cases h
     · rename_i hne
@@ -776,15 +879,19 @@ theorem norm_idem : ∀ (s : Sch) (c c' : Cbor), wfs s = true → flat s = true 
           rw [hm2]
           simp only [Option.map]
           rw [build_sorted_id _ hs]
-  | .oneOf ss, c, c', _, hf, h => by simp [flat] at hf
-theorem normTuple_idem : ∀ (ss : SchList) (xs ys : List Cbor), wfsList ss = true → flatList ss = true → normTuple ss xs = some ys → normTuple ss ys = some ys
+  | .oneOf ss, c, c', hw, hf, h => by
+    simp only [wfs] at hw
+    simp only [unions, Bool.and_eq_true] at hf
+    unfold norm at h ⊢
+    exact normFirst_idem ss c c' hw hf.2 hf.1 h
+theorem normTuple_idem : ∀ (ss : SchList) (xs ys : List Cbor), wfsList ss = true → unionsList ss = true → normTuple ss xs = some ys → normTuple ss ys = some ys
   | .nil, xs, ys, _, _, h => by cases xs <;> simp [normTuple] at h; subst h; rfl
   | .cons s rest, xs, ys, hw, hf, h => by
     cases xs with
     | nil => simp [normTuple] at h
     | cons x xs' =>
       simp only [wfsList, Bool.and_eq_true] at hw
-      simp only [flatList, Bool.and_eq_true] at hf
+      simp only [unionsList, Bool.and_eq_true] at hf
       unfold normTuple at h
       cases hx : norm s x with
       | none => simp [hx] at h
@@ -794,11 +901,11 @@ theorem normTuple_idem : ∀ (ss : SchList) (xs ys : List Cbor), wfsList ss = tr
         | some ys' =>
           simp [hx, hr] at h; subst h
           simp [normTuple, norm_idem s x y hw.1 hf.1 hx, normTuple_idem rest xs' ys' hw.2 hf.2 hr]
-theorem normFields_idem : ∀ (fs : Fields) (kvs out : List (Cbor × Cbor)), wfsFields fs = true → flatFields fs = true → normFields fs kvs = some out → normFields fs out = some out
+theorem normFields_idem : ∀ (fs : Fields) (kvs out : List (Cbor × Cbor)), wfsFields fs = true → unionsFields fs = true → normFields fs kvs = some out → normFields fs out = some out
   | .nil, kvs, out, _, _, h => by simp [normFields] at h; subst h; rfl
   | .cons k s optional rest, kvs, out, hw, hf, h => by
     simp only [wfsFields, Bool.and_eq_true, Bool.not_eq_true'] at hw
-    simp only [flatFields, Bool.and_eq_true] at hf
+    simp only [unionsFields, Bool.and_eq_true] at hf
     obtain ⟨⟨hk, hs⟩, hr⟩ := hw
     have hknot : k ∉ rest.keys := by simpa using hk
     unfold normFields at h
@@ -814,15 +921,56 @@ theorem normFields_idem : ∀ (fs : Fields) (kvs out : List (Cbor × Cbor)), wfs
       · cases h
     | some v =>
       simp only [hl] at h
-      cases hn : norm s v with
-      | none => simp [hn] at h
-      | some v' =>
-        cases hr' : normFields rest kvs with
-        | none => simp [hn, hr'] at h
-        | some out' =>
-          simp [hn, hr'] at h; subst h
-          unfold normFields
-          rw [lookup_cons_self, normFields_cons_irrelevant rest k v' out' hknot]
-          simp [norm_idem s v v' hs hf.1 hn, normFields_idem rest kvs out' hr hf.2 hr']
+      split at h
+      · rename_i hcond
+        have hopt : optional = true := by simp only [Bool.and_eq_true] at hcond; exact hcond.1
+        have hkeys := normFields_keys rest kvs out h
+        have hnone : lookup k out = none := lookup_none_of_not_mem k out (fun e he heq => hknot (heq ▸ hkeys e he))
+        unfold normFields
+        simp [hnone, hopt, normFields_idem rest kvs out hr hf.2 h]
+      · rename_i hcond
+        cases hn : norm s v with
+        | none => simp [hn] at h
+        | some v' =>
+          cases hr' : normFields rest kvs with
+          | none => simp [hn, hr'] at h
+          | some out' =>
+            simp [hn, hr'] at h; subst h
+            have hcond' : (optional && v' == Cbor.simple 22) = false := by
+              cases ho : optional with
+              | false => rfl
+              | true =>
+                simp only [ho, Bool.true_and] at hcond ⊢
+                apply beq_eq_false_iff_ne.mpr
+                intro hv'; subst hv'
+                exact hcond (by rw [norm_null s v hn]; exact (beq_iff _ _).mpr rfl)
+            unfold normFields
+            rw [lookup_cons_self, normFields_cons_irrelevant rest k v' out' hknot]
+            simp [hcond', norm_idem s v v' hs hf.1 hn, normFields_idem rest kvs out' hr hf.2 hr']
+theorem normFirst_idem : ∀ (ss : SchList) (c c' : Cbor), wfsList ss = true → unionsList ss = true → altsOk ss.toList = true →
+    normFirst ss c = some c' → normFirst ss c' = some c'
+  | .nil, c, c', _, _, _, h => by simp [normFirst] at h
+  | .cons s rest, c, c', hw, hf, ha, h => by
+    simp only [wfsList, Bool.and_eq_true] at hw
+    simp only [unionsList, Bool.and_eq_true] at hf
+    have ha' := ha
+    simp only [SchList.toList, altsOk, Bool.and_eq_true, Bool.not_eq_true', List.all_eq_true] at ha'
+    have hso : Head.other ∉ headsOf s := by intro hmem; have := ha'.1.1; simp [hmem] at this
+    unfold normFirst at h
+    cases hn : norm s c with
+    | some w =>
+      simp [hn] at h; subst h
+      unfold normFirst
+      simp [norm_idem s c w hw.1 hf.1 hn]
+    | none =>
+      simp only [hn] at h
+      obtain ⟨r, hr, hh⟩ := normFirst_head rest c c' ha'.2 h
+      have hdis : headOfCbor c' ∉ headsOf s := by
+        intro hin
+        have := ha'.1.2 r hr (headOfCbor c') hin
+        simp [hh] at this
+      unfold normFirst
+      rw [norm_none_of_head s c' hso hdis]
+      exact normFirst_idem rest c c' hw.2 hf.2 ha'.2 h
 end
 end IsoMdl.Schema
